@@ -72,10 +72,10 @@ class C11(Prop):
     def layers(self, tier, seed):
         two = ["natural@int", "1@str"]
         if tier == "quick":
-            return [Layer("CFG G2 x FA P1", lambda: self.cases("cfg", "G2", "P1"), policies=two),
-                    Layer("PDA D1 x FA P1", lambda: self.cases("pda", "D1", "P1"), policies=two),
+            return [Layer("CFG G2 x FA P1", lambda: self.cases("cfg", "G2", "P1"), policies=two + ["natural@mixed"]),
+                    Layer("PDA D1 x FA P1", lambda: self.cases("pda", "D1", "P1"), policies=two + ["natural@mixed"]),
                     Layer("PDA D2/60 x FA P1", lambda: self.cases("pda", "D2", "P1", lstep=60), policies=two[:1])]
-        three = two + ["2@int"]
+        three = two + ["2@int", "natural@mixed"]
         return [Layer("CFG G2 x FA P2 (every 2nd grammar)", lambda: self.cases("cfg", "G2", "P2", lstep=2), policies=two),
                 Layer("CFG G3 x FA P1", lambda: self.cases("cfg", "G3", "P1"), policies=three),
                 Layer("PDA D1 x FA P2", lambda: self.cases("pda", "D1", "P2"), policies=three),
@@ -130,10 +130,11 @@ class C11(Prop):
         scheme = ctx.variant or "int"
         from pyformlang.regular_expression import Regex
         l = self.left(case)
+        lscheme = "mixedval" if scheme == "mixed" else "plain"      # values of different types with one spelling
         if case[0] == "cfg":
-            left = ctx.call(O.build_cfg, l, "plain", "full")
+            left = ctx.call(O.build_cfg, l, lscheme, "full")
         else:
-            left = ctx.call(O.build_pda, l, "plain")
+            left = ctx.call(O.build_pda, l, lscheme)
         if not ctx.returns(left, "C11.build.left"):
             return
         left = left.value
